@@ -567,12 +567,12 @@ NatOf(w) == NumSat(w, 1, Len(w) + 1)
 ExactNat(w) == NumX(w, 1, Len(w) + 1)
 Plain(ws, n) == Len(ws) = n /\ \A k \in 1..n : ws[k] # <<>>
 
-ParseNat(s) == IF IsNat(s) /\ NatOf(s) > 0
-               THEN (IF ExactNat(s) < 0 THEN NotJudged ELSE Res(<<ExactNat(s)>>)) ELSE Rej
+\* a component of -1 in the value: more than 9 significant digits (the verdict stands, the value is not compared)
+ParseNat(s) == IF IsNat(s) /\ NatOf(s) > 0 THEN Res(<<ExactNat(s)>>) ELSE Rej
 ParsePair(s, reduce) ==
   LET ws == Components(s) IN
   IF Plain(ws, 2) /\ IsNat(ws[1]) /\ IsNat(ws[2]) /\ NatOf(ws[1]) > 0 /\ NatOf(ws[2]) > 0
-  THEN (IF ExactNat(ws[1]) < 0 \/ ExactNat(ws[2]) < 0 THEN NotJudged
+  THEN (IF ExactNat(ws[1]) < 0 \/ ExactNat(ws[2]) < 0 THEN Res(<<-1, -1>>)
         ELSE Res(IF reduce THEN Norm(ExactNat(ws[1]), ExactNat(ws[2])) ELSE <<ExactNat(ws[1]), ExactNat(ws[2])>>))
   ELSE Rej
 ParseExtent(s) ==
